@@ -75,7 +75,7 @@ type shapeAnalysis struct {
 	// consumed records, per grammar transition (parent rule, state before, child rule), the walker functions that
 	// received such a child as an argument
 	consumed map[transition]map[string]bool
-	tops    map[string]bool          // places where an unknown node value had to be assumed
+	tops     map[string]bool // places where an unknown node value had to be assumed
 }
 
 type shapeRet struct {
